@@ -677,13 +677,27 @@ pub fn corrupt(rng: &mut StdRng, p: &Puppets, m: ConsensusMessage) -> Option<(St
                 ("timeout: embedded QC below quorum".into(), ConsensusMessage::Timeout(t))
             }
         },
-        ConsensusMessage::TC(mut tc) => match rng.gen_range(0, 3) {
+        ConsensusMessage::TC(mut tc) => match rng.gen_range(0, 4) {
             0 => {
                 if tc.votes.is_empty() {
                     return None;
                 }
                 tc.votes.pop();
                 ("TC: below quorum".into(), ConsensusMessage::TC(tc))
+            }
+            3 => {
+                // one member's validly signed timeouts for this round, reporting different high-QC rounds,
+                // repeated until the naive sum of stakes reaches the quorum
+                let who = tc.votes.first().and_then(|v| p.topo.index_of(&v.0))?;
+                let st = p.topo.stakes[who] as u64;
+                let q = p.topo.quorum();
+                if who == p.r || st == 0 || st >= q {
+                    return None;
+                }
+                let k = ((q + st - 1) / st).max(tc.votes.len() as u64).min(64);
+                let entries: Vec<(usize, u64)> = (0..k).map(|j| (who, j)).collect();
+                let forged = p.mk_tc(tc.round, &entries);
+                ("TC: one member's timeouts with different high-QC rounds counted repeatedly".into(), ConsensusMessage::TC(forged))
             }
             1 => {
                 if tc.votes.is_empty() {
